@@ -241,10 +241,16 @@ func (b *OutboundBreaker) init(limit int64, interval time.Duration) (*OutboundBr
 		return nil, fmt.Errorf("bad limit %d", limit)
 	}
 	ticks := breakerTicks
+	// When the limit is adjusted, the calls already in the window
+	// still happened: keep the counts as long as they mean the
+	// same (same number of ticks of the same length).
+	fresh := len(b.counts) != ticks || b.interval != interval
 	b.limit = limit
 	b.interval = interval
 	b.ticks = ticks
-	b.counts = make([]int64, ticks)
+	if fresh {
+		b.counts = make([]int64, ticks)
+	}
 	return b, nil
 }
 
